@@ -10,13 +10,22 @@ CHECK = {
                  "re-initialisation of the used object (NAME_init on fresh storage, capacities cap-1/cap/cap+1/1/max) is an operation of the search, its model is an empty ring of the new capacity whose mode is probed on a copy of the re-initialised object (the statement is silent on the mode after re-initialisation); "
                  "observers and both iterators run in every state, every iteration on iterator objects with 7 different histories; "
                  "plus a bounded-exhaustive family of structured histories on capacities straddling 2^8 and 2^16 (thorough also 2^15, 2^17); "
+                 "thorough only: the library's octet_ring driven on capacities 2^31+16 and 2^32+8 (lazily committed anonymous memory between two inaccessible pages, one process per capacity) through fill / overfill / drain (override off) and fill / evict once around (override on), "
+                 "the model being the interval of sequence numbers of the queued elements and a value function of the sequence number; size/empty/full and both iterators over their first 64 elements at checkpoints straddling 2^31, 2^32 and the capacity, counted in puts, gets and evictions; "
                  "build variants: the search at capacities 1..3 is repeated with assertions enabled everywhere (the repository's default build type), and with the library objects and the application (this harness with its own template instances) built with different NDEBUG settings, both ways (the two mixed builds only if a start-up probe finds the object layouts of both sides equal)",
     "rule": "a case is one transition (operation applied to a reachable state) followed by size/empty/full and both iterators run to completion; non-trivial = everything but clear of an empty ring; "
             "path numbers 0..5 are put(A) put(B) get clear override(on) override(off), 100+B is NAME_init(object, fresh storage, B); "
             "layout probe cases (mixed builds): sizeof/alignof of rb_iter and of octet_ring on both sides of the library boundary; "
             "probe cases: init, cap puts, one more put, get (decides the mode the model gives a freshly initialised ring); "
-            "big cases: one structured history (rotate cursors, fill, overfill, iterate, drain, iterate, two more puts, iterate, drain to empty)",
+            "big cases: one structured history (rotate cursors, fill, overfill, iterate, drain, iterate, two more puts, iterate, drain to empty); "
+            "huge cases (thorough): one history of about 2 x capacity operations on a ring of 2^31+16 or 2^32+8 octets -- override off: rotate, fill, two dropped puts, drain to empty (with 32 left: 32 puts across the wrap, 32 gets), get on empty; "
+            "override on: rotate, fill, capacity+32 evicting puts, 64 gets, 2 puts -- every get compared with the oldest element, observers (size/empty/full, both iterators over their first 64 elements, to completion on shorter queues) at every checkpoint; "
+            "outcome huge-slow / huge-unmapped: the case was not run (projected time beyond half its watchdog budget / no address range), run marked non-exhaustive",
     "assumptions": ["two element values per type (float/double: fractions of either sign; int64_t: a negative value and one beyond 2^32), compared by bit pattern; capacities up to the stated bound (small-scope); large capacities only through the structured family named in the bound, with position-dependent element values",
+                    "rings of more than 2^31 / 2^32 slots (thorough): octet_ring only (the template is the same text for every element type; 2 and 4 GiB of real memory per ring, one ring at a time per process, two processes); capacities 2^31+16 and 2^32+8, rotation 0 and 1 (2^32+8: 0); "
+                    "the iterators are not run to completion there but over the oldest 64 (old-to-new) and the newest 64 (new-to-old) elements at each checkpoint: the checkpoints (fill level, number of evictions, number of gets at 1, 2, 32, 64, 65, 2^k-32, 2^k-1, 2^k, 2^k+1, 2^k+32 for 2^k in {2^31, 2^32} below the capacity, cap-32, cap-1, cap, and for evictions cap+1, cap+32) put both ends of the queue on either side of each such slot number and of the wrap; "
+                    "element number s has the value ((s * 0x9e3779b97f4a7c15) >> 56) | 1: odd, so distinct from the 0 of an empty get and from the even value 0x7e of a put the model says is dropped; a misplaced element is seen with probability 127/128 per compared element (64 per window)",
+                    "the statement sets no speed: each huge case states a watchdog budget proportional to its work (60 s + 40 ns per operation; the unchanged library needs about 9 ns); a start-up probe (64 KiB ring: 4 Mi evicting puts, get/put pairs, iterator steps, best of three) projects its time, and a case projected beyond half its budget is not run (cap huge-slow, non-exhaustive) instead of being reported as a hang; the clock is not consulted in a replay and never printed",
                     "instances: library octet_ring (uint8_t) and harness instantiations of the same macro template for uint16_t/uint32_t/float/double/int64_t ('get returns the oldest element' holds for every element type the template is instantiated with)",
                     "the ring object is a flat struct; a state is restored on a fresh exact-size block by copying the object's octets (padding included) and pointing every aligned pointer-sized word whose value lay in [storage, storage + capacity * sizeof(TYPE)] at the same offset of the new block (the storage pointer, cached positions); keys and printed object images hold the offsets, never addresses; an integer member that happens to equal an address inside the storage would be mistaken for such a pointer",
                     "the state set of one search is limited to 8 x (from capacity 7: 4 x) (24 * cap * 2^cap + 400) states (the unchanged library reaches 78..243714 at capacities 1..10): an object whose image never repeats (counters of dropped/evicted elements) has no fixpoint, its search stops at the limit and the run is marked non-exhaustive",
@@ -33,6 +42,9 @@ CHECK = {
         "lib": ["src/octet-ring.c", "src/ring-buffer-iter.c"], "shards": 16, "opt": "-O2", "min_outcomes": 12,
         "require_outcomes": {"any": ["put-evicts", "put-dropped", "get-empty", "get-oldest", "clear",
                                      "reinit", "initial-dirty-object", "big-stored", "big-dropped", "big-evicts"]},
+        # huge-dropped / huge-evicts (thorough) are not required here: a machine too slow for the family caps it
+        # (huge-slow), which must not read as a vacuous run; the process that drives a huge capacity guards itself
+        # (mc_broken when neither the histories of both modes nor a cap were seen)
     }] + [{
         # the same search (capacities 1..3) in the other NDEBUG configurations: NDEBUG is a per-translation-unit
         # setting, the library objects and the application's own template instances are built separately
